@@ -307,6 +307,9 @@ func c12Exec(t *fw.T, cs *c12Case, _ bool) {
 			}
 		case 2: // PeekErr
 			k := r.Intn(L - model.pos + 3)
+			if model.pos > 0 && r.Intn(4) == 0 {
+				k = -1 - r.Intn(model.pos) // look-behind: never the end, wherever the cursor stands
+			}
 			rec(fmt.Sprintf("PeekErr(%d)", k))
 			calls++
 			if got, want := c.PeekErr(k), model.peekErr(k); got != want {
